@@ -577,7 +577,6 @@ class MetaClass(object):
         Create and return a new instance.
         '''
         inst = self.clazz()
-        self.storage.append(inst)
         
         # set all attributes with an initial default value
         referential_attributes = dict()
@@ -585,7 +584,9 @@ class MetaClass(object):
             if name not in self.referential_attributes:
                 value = self.default_value(ty)
                 setattr(inst, name, value)
-            
+        
+        self.storage.append(inst)
+        
         # set all positional arguments
         for attr, value in zip(self.attributes, args):
             name, ty = attr
